@@ -376,6 +376,16 @@ pub fn run_c08(out: &mut Out, tier: &str, seed: u64) {
     // raw numbers: valid literal, verbatim, accessors agree; bare and quoted; invalid ones rejected
     let mut lits = literals(&mut rng, false);
     lits.truncate(if thorough { 6000 } else { 1500 });
+    // damaged tails on literals of every length (the scanners' block and tail paths differ)
+    let base: Vec<String> = lits.iter().take(200).cloned().collect();
+    for (i, b) in base.iter().enumerate() {
+        let tail = ["." , "e", "E", "-", ".e5", "e+", ".5.5", "E-", "1e1e1", "x"][i % 10];
+        lits.push(format!("{b}{tail}"));
+        if !b.contains('.') && !b.contains('e') && !b.contains('E') {
+            lits.push(format!("{b}.e5"));
+            lits.push(format!("{b}."));
+        }
+    }
     for l in ["01", "1.", ".5", "1e", "-", "+1", "1e+", "0x10", "1_0", " 1", "1 ", "NaN", "Infinity", "", "--1", "1.e1", "1ee1"] {
         lits.push(l.to_string());
     }
